@@ -31,6 +31,8 @@ def op(o):
         f = o.get("fault")
         if f and f.get("cancel"):
             raise ValueError("cancel ops are expanded by ops_and_codes")
+        if f and f.get("read"):
+            f = None     # a slow statement with concurrent readers: the block itself is processed without fault
         fs = "None" if not f else "(Some (%s, %d%%nat))" % (TABLES[f["table"]], f["k"])
         return "OBlock (mkBlock %s %s) %s" % (cN(o["num"]), clist([ev(e) for e in o.get("events") or []]), fs)
     if k == "reorg":
@@ -121,6 +123,9 @@ def distribution(outs):
                     d["bridge_events" if e["t"] == "bridge" else "other_events"] += 1
                 if x.get("fault"):
                     d["faults"] += 1
+                    if x["fault"].get("read"):
+                        d["faults"] -= 1
+                        d["blocks_with_mid_transaction_readers"] = d.get("blocks_with_mid_transaction_readers", 0) + 1
                     if x["fault"].get("cancel"):
                         d["context_cancellations_mid_block"] = d.get("context_cancellations_mid_block", 0) + 1
             elif x["k"] == "reorg":
